@@ -12,6 +12,8 @@
 (*    size  "ok" canonical decimal | "bad" not a non-negative integer |    *)
 (*          "len" lenient spelling (+1, 1_0, -0, non-ASCII digits)         *)
 (*    ts    "ok" | "bad" | "len"   ISO-8601 %Y-%m-%dT%H:%M:%SZ              *)
+(* A line with six fields additionally says whether its two checksum names *)
+(* are the same word (variable dup).                                       *)
 (* Layer P:  Valid(line) / MustReject(line).                               *)
 (* Layer A:  Parse(line) follows manifest.py (from_list, process_path,     *)
 (*           process_checksums) check by check.                            *)
@@ -20,7 +22,8 @@ EXTENDS Naturals, Sequences, FiniteSets, TLC
 
 CONSTANTS MaxFields,
           EscAbsCheck,   \* FALSE = historical: absolute-path test before unescaping (F4)
-          RangeCheck     \* FALSE = historical: chr() of an out-of-range value raises (F5)
+          RangeCheck,    \* FALSE = historical: chr() of an out-of-range value raises (F5)
+          DupCheck       \* FALSE = historical: a checksum name listed twice, the last value wins (F48)
 
 FileTags  == {"DATA", "MANIFEST", "MISC", "EBUILD", "AUX", "DIST"}
 KnownTags == FileTags \cup {"IGNORE", "TIMESTAMP"}
@@ -55,7 +58,9 @@ Fld(l, k) == l[k + 1]
 
 (* ---- Layer P ----------------------------------------------------------- *)
 (* what the property names as malformed *)
-MustReject(l) ==
+MustReject(l, d) ==
+    \/ Tag(l) \in FileTags /\ d                    \* a checksum name listed twice: not every listed
+                                                  \* value can be honoured by a name -> value table
     \/ Tag(l) \notin KnownTags
     \/ Tag(l) = "TIMESTAMP" /\ (NF(l) # 1 \/ Fld(l, 1).ts = "bad")
     \/ Tag(l) = "IGNORE"    /\ (NF(l) # 1 \/ Fld(l, 1).path = "bad")
@@ -67,7 +72,8 @@ MustReject(l) ==
          \/ (NF(l) - 2) % 2 = 1                    \* checksum name without value
 
 (* what must be accepted as an entry *)
-MustAccept(l) ==
+MustAccept(l, d) ==
+    /\ ~(Tag(l) \in FileTags /\ d)
     /\ Tag(l) \in KnownTags
     /\ Tag(l) = "TIMESTAMP" => (NF(l) = 1 /\ Fld(l, 1).ts = "ok")
     /\ Tag(l) = "IGNORE"    => (NF(l) = 1 /\ Fld(l, 1).path = "ok")
@@ -86,7 +92,7 @@ ProcessPath(f) ==          \* process_path: "ok" | "syntax" | "crash"
     ELSE IF f.raw = "range" THEN (IF RangeCheck THEN "syntax" ELSE "crash")
     ELSE "ok"
 
-Parse(l) ==
+Parse(l, d) ==
     IF Tag(l) \notin KnownTags THEN "syntax"                         \* KeyError -> syntax
     ELSE IF Tag(l) = "TIMESTAMP" THEN
          IF NF(l) # 1 THEN "syntax" ELSE IF Fld(l, 1).ts = "bad" THEN "syntax" ELSE "entry"
@@ -101,18 +107,23 @@ Parse(l) ==
               ELSE IF NF(l) < 2 THEN "syntax"
               ELSE IF Fld(l, 2).size = "bad" THEN "syntax"
               ELSE IF (NF(l) - 2) % 2 = 1 THEN "syntax"
+              ELSE IF d /\ DupCheck THEN "syntax"
               ELSE "entry"
 
 (* ---- the model: one state per line -------------------------------------- *)
-VARIABLES line, outcome
-vars == <<line, outcome>>
-Init == /\ \E t \in Tags : \E n \in 0..MaxFields : \E fs \in [1..n -> Fields] : line = <<t>> \o fs
+VARIABLES line, dup, outcome
+vars == <<line, dup, outcome>>
+Plain == F("ok",  FALSE, "bad", "bad", "",       "plain name")
+Init == /\ \/ /\ \E t \in Tags : \E n \in 0..MaxFields : \E fs \in [1..n -> Fields] : line = <<t>> \o fs
+              /\ dup = FALSE
+           \/ /\ \E t \in Tags : \E f1, f2 \in Fields : line = <<t, f1, f2, Plain, Plain, Plain, Plain>>
+              /\ dup \in BOOLEAN                   \* path size name value name value
         /\ outcome = "none"
-Step == outcome = "none" /\ outcome' = Parse(line) /\ UNCHANGED line
+Step == outcome = "none" /\ outcome' = Parse(line, dup) /\ UNCHANGED <<line, dup>>
 Spec == Init /\ [][Step]_vars
 
 Total     == outcome \in Outcomes \cup {"none"}                 \* never a crash (C09 / C18)
-Rejects   == (outcome # "none" /\ MustReject(line)) => outcome = "syntax"
-Accepts   == (outcome # "none" /\ MustAccept(line)) => outcome = "entry"
-Disjoint  == ~(MustReject(line) /\ MustAccept(line))
+Rejects   == (outcome # "none" /\ MustReject(line, dup)) => outcome = "syntax"
+Accepts   == (outcome # "none" /\ MustAccept(line, dup)) => outcome = "entry"
+Disjoint  == ~(MustReject(line, dup) /\ MustAccept(line, dup))
 =============================================================================
